@@ -448,7 +448,7 @@ impl Family for C05RawFamily {
         let rwnd = *r.pick(&[2u32, 4, 16]);
         let n = 1 + r.below(rwnd as usize);
         let plan = crate::solo::C05RawPlan {
-            ep: EpCfg { rwnd, threshold: 1 + r.below(rwnd as usize) as u32, dgram_buf: 8, stream_buf: 4, bind_buf: 0, retries: 3, ids: vec![] },
+            ep: EpCfg { rwnd, threshold: 1 + r.below(rwnd as usize) as u32, dgram_buf: 8, stream_buf: 4, bind_buf: 0, retries: 3, ids: vec![], keepalive_ms: [0, 0] },
             link: LinkCfg { window: *r.pick(&[1usize, 8, 1 << 20]), latency_ms: 0, drop_after_close: false, ws_client: 0, bp_flush: r.chance(1, 2) },
             weights: gen_weights(r),
             pushes: (0..n).map(|_| if r.chance(1, 3) { 0 } else { 1 + r.below(12) }).collect(),
@@ -728,6 +728,37 @@ fn gen_c11(r: &mut Prng, _i: u64, _t: Tier) -> Plan {
     }
     p
 }
+/// datagram bursts on a slow link with keepalive on: "no datagram, whatever its size or rate,
+/// terminates the connection"
+fn gen_c11_keepalive(r: &mut Prng, i: u64, t: Tier) -> Plan {
+    let mut p = gen_c11(r, i, t);
+    p.faults.clear();
+    p.link.window = 1 + r.below(2);
+    p.link.latency_ms = *r.pick(&[5u64, 20, 50]);
+    // interval and timeout far above the round trip of the link (a few message times), far below
+    // the time the burst needs
+    let iv = p.link.latency_ms * *r.pick(&[20u64, 40]);
+    for e in &mut p.eps {
+        e.keepalive_ms = [iv, iv * *r.pick(&[1u64, 2])];
+    }
+    // a burst whose transmission takes longer than the keepalive timeout
+    let from = r.below(2);
+    let n = 100 + r.below(150);
+    let items = (0..n).map(|_| DgItem { flow: r.next() as u32, hlen: r.below(10), port: r.next() as u16, len: r.below(40), yields: 0 }).collect();
+    p.dg_tx.push(DgTx { from, items });
+    p.horizon_ms = 120_000;
+    p
+}
+fn x_c11_keepalive(r: &DuoRun, wm: &WireModel, ei: &EndInfo, o: &mut Outcome) {
+    // the family's space: keepalive periods at least 20 message times (the minimiser must not
+    // shrink them below the round trip of the link, where a timeout is legitimate)
+    let lat = r.plan.link.latency_ms.max(1);
+    if r.plan.eps.iter().any(|e| e.keepalive_ms[0] < 20 * lat || e.keepalive_ms[1] < e.keepalive_ms[0]) {
+        o.violations.clear();
+        return;
+    }
+    x_c11(r, wm, ei, o);
+}
 fn x_c11(r: &DuoRun, _wm: &WireModel, _ei: &EndInfo, o: &mut Outcome) {
     // stream traffic on the same connection must be neither blocked nor corrupted
     let disturbed: Vec<String> = o.violations.iter().filter(|v| v.class.starts_with("C02:") || v.class.starts_with("C04:") || v.class.starts_with("C03:")).map(|v| format!("{}: {}", v.class, v.msg)).collect();
@@ -748,7 +779,8 @@ pub fn c11() -> Check {
     duo_check(
         "C11",
         "exploration",
-        vec![fam("bursts", 300000, 2_000_000, gen_c11, OracleCfg::default(), Some(x_c11), nt_c11, "datagram senders on one or both sides: host length 0..300, payload 0,1,2,3,4..64 KiB, flow ids incl. 0 and u32::MAX, all ports, bursts of 1..4x datagram_buffer_size (sizes 1,2,8,512); receivers drain at a seeded pace or stop; 0-2 checked streams in parallel. Oracle: wire frames = accepted datagrams in order; the receiving application's sequence equals an exact bounded-queue model evaluated on the global event order (a datagram may be missing only if the buffer was full at the instant its frame was consumed); >255-byte hosts refused with DatagramHostTooLong and absent from the wire; the connection task never returns; stream models hold. Non-trivial: >=2 datagrams delivered.")],
+        vec![fam("bursts", 300000, 2_000_000, gen_c11, OracleCfg::default(), Some(x_c11), nt_c11, "datagram senders on one or both sides: host length 0..300, payload 0,1,2,3,4..64 KiB, flow ids incl. 0 and u32::MAX, all ports, bursts of 1..4x datagram_buffer_size (sizes 1,2,8,512); receivers drain at a seeded pace or stop; 0-2 checked streams in parallel. Oracle: wire frames = accepted datagrams in order; the receiving application's sequence equals an exact bounded-queue model evaluated on the global event order (a datagram may be missing only if the buffer was full at the instant its frame was consumed); >255-byte hosts refused with DatagramHostTooLong and absent from the wire; the connection task never returns; stream models hold. Non-trivial: >=2 datagrams delivered."),
+            fam("bursts-under-keepalive", 30000, 300_000, gen_c11_keepalive, OracleCfg::default(), Some(x_c11_keepalive), nt_c11, "the `bursts` workload plus one burst of 100-250 datagrams on a link that takes 5-50 ms per message with room for 1-2 messages, both endpoints with keepalive on (interval 20-40 message times, timeout 1-2 intervals; pings answered by the transport as soon as they arrive): the burst takes longer to transmit than the timeout. Nothing but an injected fault may end the connection.")],
         vec!["dgram-legit-drop", "dgram-buffer-exactly-full", "datagram-payload-under-4-bytes", "datagram-host-over-255"],
     )
 }
@@ -1327,7 +1359,7 @@ pub struct C10Family {
 }
 fn c10_base(r: &mut Prng) -> C10Plan {
     C10Plan {
-        ep: EpCfg { rwnd: *r.pick(&[1u32, 2, 3, 4]), threshold: *r.pick(&[1u32, 2, 4]), dgram_buf: *r.pick(&[1usize, 8]), stream_buf: 16, bind_buf: *r.pick(&[0usize, 0, 8]), retries: 3, ids: vec![] },
+        ep: EpCfg { rwnd: *r.pick(&[1u32, 2, 3, 4]), threshold: *r.pick(&[1u32, 2, 4]), dgram_buf: *r.pick(&[1usize, 8]), stream_buf: 16, bind_buf: *r.pick(&[0usize, 0, 8]), retries: 3, ids: vec![], keepalive_ms: [0, 0] },
         link: LinkCfg { window: *r.pick(&[2usize, 8, 1 << 20]), latency_ms: 0, drop_after_close: r.chance(1, 2), ws_client: r.below(2) as u8, bp_flush: r.chance(1, 2) },
         weights: gen_weights(r),
         peer_rwnd: *r.pick(&[1u32, 2, 4, 16]),
@@ -1457,7 +1489,7 @@ impl Family for C13Family {
         let sh = fls(r, 10);
         let pushes = (0..r.below(10)).map(|_| if r.chance(1, 10) { 1 + r.below(4000) } else { 1 + r.below(30) }).collect();
         let plan = C13Plan {
-            ep: EpCfg { rwnd, threshold: 1 + r.below(rwnd as usize) as u32, dgram_buf: 8, stream_buf: 4, bind_buf: 0, retries: 3, ids: vec![] },
+            ep: EpCfg { rwnd, threshold: 1 + r.below(rwnd as usize) as u32, dgram_buf: 8, stream_buf: 4, bind_buf: 0, retries: 3, ids: vec![], keepalive_ms: [0, 0] },
             link: LinkCfg { window: *r.pick(&[1usize, 4, 1 << 20]), latency_ms: if r.chance(1, 5) { 10 } else { 0 }, drop_after_close: false, ws_client: r.below(2) as u8, bp_flush: r.chance(1, 2) },
             weights: gen_weights(r),
             peer_rwnd: *r.pick(&[1u32, 2, 4, 100]),
@@ -1744,7 +1776,7 @@ impl Family for C07RawFamily {
         let opens = 1 + r.below(3);
         let space = 2 + r.below(6);
         let plan = C07RawPlan {
-            ep: EpCfg { rwnd: 4, threshold: 2, dgram_buf: 8, stream_buf: 4, bind_buf: 0, retries, ids: if r.chance(1, 2) { (0..30).map(|_| r.below(space + 1) as u32).collect() } else { vec![] } },
+            ep: EpCfg { rwnd: 4, threshold: 2, dgram_buf: 8, stream_buf: 4, bind_buf: 0, retries, ids: if r.chance(1, 2) { (0..30).map(|_| r.below(space + 1) as u32).collect() } else { vec![] }, keepalive_ms: [0, 0] },
             link: LinkCfg { window: *r.pick(&[1usize, 8, 1 << 20]), latency_ms: 0, drop_after_close: false, ws_client: 0, bp_flush: r.chance(1, 2) },
             weights: gen_weights(r),
             reject: r.below(retries * opens + 2),
